@@ -69,6 +69,11 @@ Record mint := mkM { mbits : Z; mval : Z }.
 Definition isSmall (z : mint) : bool := mbits z <=? 64.
 Definition small (z : mint) : Z := wrap_s64 (mval z).
 Definition big (z : mint) : Z := mval z.
+(* func (z *Int) ubig(): the non-negative number the bits of z spell — a small Int
+   with values == nil and i64 < 0 (a folded 64-bit result with bit 63 set) reads as
+   uint64(i64); everything else as big().  (Repair of finding F6m.) *)
+Definition ubig (z : mint) : Z :=
+  if isSmall z && (mval z <? 0) then (mval z) mod 2^64 else mval z.
 
 (* func (z *Int) setSmall(x int64): mask >>= 64 - bits; i64 = int64(uint64(x) & mask) *)
 Definition setSmall (bits x : Z) : res mint :=
@@ -158,16 +163,16 @@ Definition mMul (z x y : mint) : res mint :=
   else bigMul z x y.
 Definition mAnd (z x y : mint) : res mint :=
   if isSmall z then setSmall (mbits z) (Z.land (small x) (small y))
-  else Ok (mkM (mbits z) (Z.land (big x) (big y))).
+  else Ok (mkM (mbits z) (Z.land (ubig x) (ubig y))).
 Definition mOr (z x y : mint) : res mint :=
   if isSmall z then setSmall (mbits z) (Z.lor (small x) (small y))
-  else Ok (mkM (mbits z) (Z.lor (big x) (big y))).
+  else Ok (mkM (mbits z) (Z.lor (ubig x) (ubig y))).
 Definition mXor (z x y : mint) : res mint :=
   if isSmall z then setSmall (mbits z) (Z.lxor (small x) (small y))
-  else Ok (mkM (mbits z) (Z.lxor (big x) (big y))).
+  else Ok (mkM (mbits z) (Z.lxor (ubig x) (ubig y))).
 Definition mAndNot (z x y : mint) : res mint :=
   if isSmall z then setSmall (mbits z) (Z.ldiff (small x) (small y))
-  else Ok (mkM (mbits z) (Z.ldiff (big x) (big y))).
+  else Ok (mkM (mbits z) (Z.ldiff (ubig x) (ubig y))).
 (* Go int64 "/" truncates toward zero (Z.quot); MinInt64 / -1 wraps *)
 Definition mDiv (z x y : mint) : res mint :=
   if isSmall z then
@@ -185,17 +190,17 @@ Definition mMod (z x y : mint) : res mint :=
 (* big path of Lsh: "z.values.Lsh(..); for i := z.values.BitLen()-1; i >= z.bits; i-- {
    z.values.SetBit(z.values, i, 0) }": bits w .. BitLen-1 of the two's complement are
    cleared (BitLen = that of the absolute value, taken once).  For v >= 0 this is
-   v mod 2^w (FoldClassProof.lsh_clear_nonneg); a NEGATIVE v (the operand is a folded
-   64-bit constant with bit 63 set: small, i64 < 0, big() negative) stays negative. *)
+   v mod 2^w (FoldClassProof.lsh_clear_nonneg); the operand is read with ubig(), so v
+   is non-negative for every operand Generator.Constant can leave behind. *)
 Definition lsh_clear (w v : Z) : Z :=
   let bl := bitlen_abs v in
   if bl <=? w then v else v - (v mod 2^bl - v mod 2^w).
 Definition mLsh (z x : mint) (n : Z) : res mint :=
   if isSmall z then setSmall (mbits z) (if 64 <=? n then 0 else wrap_s64 (small x * 2^n))
-  else Ok (mkM (mbits z) (lsh_clear (mbits z) (big x * 2^n))).
+  else Ok (mkM (mbits z) (lsh_clear (mbits z) (ubig x * 2^n))).
 Definition mRsh (z x : mint) (n : Z) : res mint :=
   if isSmall z then setSmall (mbits z) (Z.shiftr (small x) n)
-  else Ok (mkM (mbits x) (Z.shiftr (big x) n)).
+  else Ok (mkM (mbits x) (Z.shiftr (ubig x) n)).
 
 (* ---------- types.Info (Type, Bits, MinBits) and constant values ---------- *)
 Inductive kind := KInt | KUint | KBool.
